@@ -121,6 +121,25 @@ def answerDefault (r : Req) : Nat :=
   | some st => if st = 0 then 200 else st
   | none => 200
 
+/-- what StaticResponse.ServeHTTP does once it has its status: answer; or, for 103 Early Hints,
+    write the interim header and `return next.ServeHTTP(w, r)`; or fail (`Atoi` error → 500) -/
+inductive AnswerStep where
+  | write (n : Nat)
+  | hint
+  | fail
+deriving DecidableEq, Repr
+
+def answerStep (src : Src) (r : Req) : AnswerStep :=
+  match src with
+  | .empty => .write (answerDefault r)
+  | _ =>
+    match src.resolve r with
+    | some n => if n = 103 then .hint else .write n
+    | none => .fail
+
+/-- the trace entry of an interim `WriteHeader(103)` (no probe, no request data) -/
+def hintEv : Ev := ⟨0, 999, none, none, 999⟩   -- no probe event has this path
+
 /-- request matchers. `atom f vals` is a real `host`/`path`/`method`/`header` matcher configured
     with exact values; `err kind st` is a matcher that reports an error (kind 0: `(false, err)`,
     kind 1: `(true, err)`, kind 2: legacy `Match` + `MatcherErrorVarKey`); `legacy b` implements
@@ -264,13 +283,11 @@ def runHandler : Handler → K → K
   | .rewrite id p, k => fun r t => k { r with path := p, uri := p } (t ++ [ev id r])
   | .fail id st, _ => fun r t => .err (t ++ [ev id r]) st r
   | .raise src, _ => fun r t => .err t (raiseStatus src r) r
-  | .answer src, _ => fun r t =>
-    match src with
-    | .empty => .done t (some (answerDefault r))
-    | _ =>
-      match src.resolve r with
-      | some n => .done t (some n)
-      | none => .err t 500 r          -- `return Error(http.StatusInternalServerError, err)`
+  | .answer src, k => fun r t =>
+    match answerStep src r with
+    | .write n => .done t (some n)
+    | .hint => k r (t ++ [hintEv])
+    | .fail => .err t 500 r         -- `return Error(http.StatusInternalServerError, err)`
   | .invoke _, _ => fun r t => .err t 0 r   -- `fmt.Errorf("invoke: route '%s' not found", …)`
   | .sub rs hasErrs errs, k => fun r t =>
     -- Subroute.ServeHTTP: `sr.Routes.Compile(<next, remembering whether it failed>)`; on an error
